@@ -272,6 +272,10 @@ impl Uci {
                 self.game = Game::new();
                 self.is_stopped.reset();
 
+                // The handle of a search that has already finished must not outlive the latch it
+                // would wait on: a later `stop` would block forever on the freshly reset latch.
+                self.control = None;
+
                 #[cfg(jgilchrist_tcheran_verif)]
                 crate::engine::util::sync::verif_delay("newgame_after_reset");
 
